@@ -5,6 +5,7 @@ import (
 
 	"github.com/hattya/go.sh/ast"
 	"github.com/hattya/go.sh/interp"
+	"github.com/hattya/go.sh/pattern"
 	"verifharness/fsmodel"
 	"verifharness/nd"
 )
@@ -71,7 +72,7 @@ func refPatternEscape(s string) string {
 	return b.String()
 }
 
-func c15(n int, ascii bool) { c15s(freeRunes(n, ascii), false) }
+func c15(n int, ascii bool) { c15s(freeRunes(n, ascii), false, false) }
 
 // C15_Path*: s over {a b \ / * .}: escaped separators and escaped
 // backslashes in front of separators, in a directory where the paths spelled
@@ -81,14 +82,14 @@ func c15path(n int) {
 	for i := range s {
 		s[i] = nd.RuneIn("ab\\/*.")
 	}
-	c15s(s, true)
+	c15s(s, true, false)
 }
 
 func C15_Path3() { c15path(3) }
 func C15_Path4() { c15path(4) }
 func C15_Path5() { c15path(5) }
 
-func c15s(s []rune, tree bool) {
+func c15s(s []rune, tree, matchCheck bool) {
 	n := len(s)
 	style := nd.Choice(4)
 	q, ok := quoteSrc(style, s)
@@ -154,6 +155,28 @@ func c15s(s []rune, tree bool) {
 	if mode == interp.Pattern {
 		nd.Cover("pattern")
 		nd.Assert(got[0] == refPatternEscape(want), "in Pattern mode quoted characters are escaped so that they match only themselves")
+		if !matchCheck {
+			return
+		}
+		// ... and as a pattern the result matches s, the whole of s, and
+		// nothing but s (small alphabets only: the pattern is symbolic)
+		m, merr := pattern.Match([]string{got[0]}, pattern.Prefix|pattern.Largest, want)
+		nd.Assert(merr == nil && m == want, "the Pattern-mode result matches the quoted text itself")
+		if len(s) > 0 {
+			// t = s with one character replaced by another one
+			at := nd.Choice(len(s))
+			c := nd.RuneIn("a1{}*?[\\é")
+			nd.Assume(c != s[at])
+			t := ""
+			for k, r := range s {
+				if k == at {
+					r = c
+				}
+				t += string(r)
+			}
+			m, merr = pattern.Match([]string{got[0]}, pattern.Prefix|pattern.Largest, t)
+			nd.Assert(merr == pattern.NoMatch || (merr == nil && m != t), "the Pattern-mode result matches nothing but the quoted text")
+		}
 	} else {
 		nd.Cover("literal")
 		nd.Assert(got[0] == want, "quoted text is unchanged by expansion")
@@ -165,3 +188,17 @@ func c15s(s []rune, tree bool) {
 func C15_N1() { c15(1, false) }
 func C15_N2() { c15(2, false) }
 func C15_N3() { c15(3, true) }
+
+// C15_Brace*: s over {a 1 2 { } ,}: text that is a repetition operator of the
+// regular expression syntax the matcher is built on.
+func c15brace(n int) {
+	s := make([]rune, n)
+	for i := range s {
+		s[i] = nd.RuneIn("a12{},")
+	}
+	c15s(s, false, true)
+}
+
+func C15_Brace3() { c15brace(3) }
+func C15_Brace4() { c15brace(4) }
+func C15_Brace5() { c15brace(5) }
